@@ -348,6 +348,11 @@ func (c *Ctx) jsonEventsOf(w *jsonWriterFn, n ast.Node, helpers map[types.Object
 					return false
 				}
 				if fn, ok := o.(*types.Func); ok && fn.Pkg() == w.fi.Pkg.Types && fn != w.fi.Pkg.TypesInfo.Defs[w.fi.Decl.Name] {
+					// a method of a writer object (a struct that holds the stream / response writer): interpreted in place
+					if c.isWriterMethod(fn) {
+						inline = append(inline, fn)
+						return false
+					}
 					for _, a := range x.Args {
 						if tv, ok := info.Types[a]; ok && (isJsoniterStream(tv.Type) || isHTTPResponseWriter(tv.Type)) {
 							inline = append(inline, fn)
@@ -409,6 +414,19 @@ func (c *Ctx) evalCond(w *jsonWriterFn, e ast.Expr, s *jstate) (val int, refineO
 			return -1, obj, aPos, aZero
 		}
 		return -1, nil, 0, 0
+	case *ast.SelectorExpr:
+		// a tracked field of a writer object
+		obj := info.Uses[x.Sel]
+		if v, tracked := s.flags[obj]; tracked && obj != nil {
+			switch v {
+			case aZero:
+				return 0, nil, 0, 0
+			case aPos:
+				return 1, nil, 0, 0
+			}
+			return -1, obj, aPos, aZero
+		}
+		return -1, nil, 0, 0
 	case *ast.UnaryExpr:
 		if x.Op == token.NOT {
 			v, obj, rt, rf := c.evalCond(w, x.X, s)
@@ -443,11 +461,10 @@ func (c *Ctx) evalCond(w *jsonWriterFn, e ast.Expr, s *jstate) (val int, refineO
 			}
 			return -1, nil, 0, 0
 		case token.GTR, token.EQL, token.NEQ, token.LSS, token.GEQ, token.LEQ:
-			id, ok := ast.Unparen(x.X).(*ast.Ident)
-			if !ok {
+			obj := flagObjOf(info, x.X)
+			if obj == nil {
 				return -1, nil, 0, 0
 			}
-			obj := info.Uses[id]
 			v, tracked := s.flags[obj]
 			if !tracked {
 				return -1, nil, 0, 0
@@ -585,8 +602,13 @@ func (c *Ctx) exploreJSON(w *jsonWriterFn, entry *jstate, helpers map[types.Obje
 	info := w.fi.Pkg.TypesInfo
 	g := c.cfgOf(w.fi, w.body)
 	counters := c.trackedCounters(w)
+	fieldCtr := c.writerFieldCounters()
 	var cobjs []types.Object
 	for o := range counters {
+		cobjs = append(cobjs, o)
+	}
+	for o := range fieldCtr {
+		counters[o] = true
 		cobjs = append(cobjs, o)
 	}
 	sort.Slice(cobjs, func(i, j int) bool { return cobjs[i].Pos() < cobjs[j].Pos() })
@@ -632,6 +654,9 @@ func (c *Ctx) exploreJSON(w *jsonWriterFn, entry *jstate, helpers map[types.Obje
 	}
 	init := entry.clone()
 	for _, o := range cobjs {
+		if _, set := init.flags[o]; set && fieldCtr[o] {
+			continue // state of a writer object carried in from the caller
+		}
 		init.flags[o] = aZero
 	}
 	var exits []*jstate
@@ -668,11 +693,7 @@ func (c *Ctx) exploreJSON(w *jsonWriterFn, entry *jstate, helpers map[types.Obje
 			switch x := n.(type) {
 			case *ast.AssignStmt:
 				for i, lh := range x.Lhs {
-					if id, ok := lh.(*ast.Ident); ok {
-						obj := info.Defs[id]
-						if obj == nil {
-							obj = info.Uses[id]
-						}
+					if obj := flagObjOf(info, lh); obj != nil {
 						if counters[obj] && i < len(x.Rhs) {
 							if tv, ok := info.Types[x.Rhs[i]]; ok && tv.Value != nil {
 								if tv.Value.Kind() == constant.Bool {
@@ -695,8 +716,8 @@ func (c *Ctx) exploreJSON(w *jsonWriterFn, entry *jstate, helpers map[types.Obje
 					}
 				}
 			case *ast.IncDecStmt:
-				if id, ok := x.X.(*ast.Ident); ok && counters[info.Uses[id]] {
-					s.flags[info.Uses[id]] = aPos
+				if obj := flagObjOf(info, x.X); obj != nil && counters[obj] {
+					s.flags[obj] = aPos
 				}
 			case *ast.DeferStmt, *ast.GoStmt:
 				continue
@@ -712,6 +733,7 @@ func (c *Ctx) exploreJSON(w *jsonWriterFn, entry *jstate, helpers map[types.Obje
 				// `for i, x := range xs`: the index of a range loop starts at 0 and is positive on later iterations —
 				// modelled by the loop head: first entry 0, re-entry >0 (see below)
 			}
+			c.resetConstructed(info, n, s)
 			toks, unk, errCall, inline := c.jsonEventsOf(w, n, helpers)
 			if unk != "" && res.unknown == "" {
 				res.unknown = unk
@@ -730,7 +752,10 @@ func (c *Ctx) exploreJSON(w *jsonWriterFn, entry *jstate, helpers map[types.Obje
 					return nil
 				}
 			}
-			if len(inline) > 0 && depth < 3 {
+			if len(inline) > 0 && depth >= 5 && res.unknown == "" {
+				res.unknown = "helper nesting deeper than the inlining bound at " + c.pos(n.Pos())
+			}
+			if len(inline) > 0 && depth < 5 {
 				cur := []*jstate{s}
 				for _, fn := range inline {
 					fd := c.declOf(w.fi.Pkg, fn)
@@ -751,7 +776,11 @@ func (c *Ctx) exploreJSON(w *jsonWriterFn, entry *jstate, helpers map[types.Obje
 							ns := o.clone()
 							ns.flags = map[types.Object]absInt{}
 							for _, co := range cobjs {
-								ns.flags[co] = s.flags[co]
+								if fieldCtr[co] {
+									ns.flags[co] = o.flags[co] // the writer object's state as the callee left it
+								} else {
+									ns.flags[co] = s.flags[co]
+								}
 							}
 							next = append(next, ns)
 						}
@@ -838,6 +867,9 @@ func (c *Ctx) jsonWriters() []*jsonWriterFn {
 								hit = true
 							}
 						}
+					}
+					if fn, ok := calleeObj(info, call).(*types.Func); ok && c.isWriterMethod(fn) && c.writerHoldsStream(fn) {
+						hit = true
 					}
 				}
 				return true
@@ -927,6 +959,217 @@ var ruleI1 = &Rule{
 		}
 		return obls
 	},
+}
+
+// ---- writer objects: a struct of reader/service or reader/controller that holds the stream (or the response writer) and keeps the
+// comma / bracket state in its fields; its methods are interpreted in place and its constant-assigned fields are tracked like locals.
+
+type writerInfo struct {
+	types  map[*types.TypeName]bool
+	stream map[*types.TypeName]bool // holds a jsoniter stream (not only a response writer)
+	fields map[types.Object]bool    // bool / integer fields only ever assigned non-negative constants or incremented
+	owner  map[types.Object]*types.TypeName
+}
+
+func (c *Ctx) writerInfo() *writerInfo {
+	if v, ok := c.memo["writerInfo"]; ok {
+		return v.(*writerInfo)
+	}
+	wi := &writerInfo{types: map[*types.TypeName]bool{}, stream: map[*types.TypeName]bool{}, fields: map[types.Object]bool{}, owner: map[types.Object]*types.TypeName{}}
+	c.memo["writerInfo"] = wi
+	pkgs := c.PkgsUnder("reader/service", "reader/controller")
+	for _, p := range pkgs {
+		sc := p.Types.Scope()
+		for _, nm := range sc.Names() {
+			tn, ok := sc.Lookup(nm).(*types.TypeName)
+			if !ok {
+				continue
+			}
+			st, ok := tn.Type().Underlying().(*types.Struct)
+			if !ok {
+				continue
+			}
+			for i := 0; i < st.NumFields(); i++ {
+				ft := st.Field(i).Type()
+				if isJsoniterStream(ft) {
+					wi.types[tn] = true
+					wi.stream[tn] = true
+				} else if isHTTPResponseWriter(ft) {
+					wi.types[tn] = true
+				}
+			}
+			if !wi.types[tn] {
+				continue
+			}
+			for i := 0; i < st.NumFields(); i++ {
+				f := st.Field(i)
+				if b, ok := f.Type().Underlying().(*types.Basic); ok && (b.Info()&types.IsInteger != 0 || b.Info()&types.IsBoolean != 0) {
+					wi.fields[f] = true
+					wi.owner[f] = tn
+				}
+			}
+		}
+	}
+	bad := map[types.Object]bool{}
+	for _, p := range pkgs {
+		info := p.TypesInfo
+		for _, f := range p.Syntax {
+			ast.Inspect(f, func(n ast.Node) bool {
+				switch x := n.(type) {
+				case *ast.AssignStmt:
+					for i, lh := range x.Lhs {
+						se, ok := ast.Unparen(lh).(*ast.SelectorExpr)
+						if !ok {
+							continue
+						}
+						obj := info.Uses[se.Sel]
+						if !wi.fields[obj] {
+							continue
+						}
+						if len(x.Rhs) != len(x.Lhs) {
+							bad[obj] = true
+							continue
+						}
+						tv, ok := info.Types[x.Rhs[i]]
+						okConst := ok && tv.Value != nil && !strings.HasPrefix(tv.Value.ExactString(), "-")
+						if !(okConst && (x.Tok == token.ASSIGN || x.Tok == token.ADD_ASSIGN)) {
+							bad[obj] = true
+						}
+					}
+				case *ast.IncDecStmt:
+					if se, ok := ast.Unparen(x.X).(*ast.SelectorExpr); ok && wi.fields[info.Uses[se.Sel]] && x.Tok != token.INC {
+						bad[info.Uses[se.Sel]] = true
+					}
+				case *ast.UnaryExpr:
+					if x.Op == token.AND {
+						if se, ok := ast.Unparen(x.X).(*ast.SelectorExpr); ok && wi.fields[info.Uses[se.Sel]] {
+							bad[info.Uses[se.Sel]] = true
+						}
+					}
+				case *ast.CompositeLit:
+					tv, ok := info.Types[x]
+					if !ok {
+						return true
+					}
+					nt := namedOf(tv.Type)
+					if nt == nil || !wi.types[nt.Obj()] {
+						return true
+					}
+					st := nt.Underlying().(*types.Struct)
+					for i, el := range x.Elts {
+						kv, ok := el.(*ast.KeyValueExpr)
+						if !ok {
+							if i < st.NumFields() && wi.fields[st.Field(i)] {
+								bad[st.Field(i)] = true
+							}
+							continue
+						}
+						if id, ok := kv.Key.(*ast.Ident); ok {
+							if obj := info.Uses[id]; wi.fields[obj] {
+								if vtv, ok := info.Types[kv.Value]; !ok || vtv.Value == nil || strings.HasPrefix(vtv.Value.ExactString(), "-") {
+									bad[obj] = true
+								}
+							}
+						}
+					}
+				}
+				return true
+			})
+		}
+	}
+	for o := range bad {
+		delete(wi.fields, o)
+	}
+	return wi
+}
+
+func (c *Ctx) writerFieldCounters() map[types.Object]bool { return c.writerInfo().fields }
+
+func recvTypeNameOf(fn *types.Func) *types.TypeName {
+	sig, ok := fn.Type().(*types.Signature)
+	if !ok || sig.Recv() == nil {
+		return nil
+	}
+	if nt := namedOf(sig.Recv().Type()); nt != nil {
+		return nt.Obj()
+	}
+	return nil
+}
+
+func (c *Ctx) isWriterMethod(fn *types.Func) bool {
+	tn := recvTypeNameOf(fn)
+	return tn != nil && c.writerInfo().types[tn]
+}
+
+func (c *Ctx) writerHoldsStream(fn *types.Func) bool {
+	tn := recvTypeNameOf(fn)
+	return tn != nil && c.writerInfo().stream[tn]
+}
+
+// flagObjOf: the variable or writer-object field an expression names.
+func flagObjOf(info *types.Info, e ast.Expr) types.Object {
+	switch x := ast.Unparen(e).(type) {
+	case *ast.Ident:
+		if o := info.Defs[x]; o != nil {
+			return o
+		}
+		return info.Uses[x]
+	case *ast.SelectorExpr:
+		if v, ok := info.Uses[x.Sel].(*types.Var); ok && v.IsField() {
+			return v
+		}
+	}
+	return nil
+}
+
+// resetConstructed: a node that constructs a writer object (a composite literal, or a call of a function returning one) starts
+// that object's tracked fields at their zero value (or the constant given in the literal).
+func (c *Ctx) resetConstructed(info *types.Info, n ast.Node, s *jstate) {
+	wi := c.writerInfo()
+	if len(wi.types) == 0 {
+		return
+	}
+	reset := func(tn *types.TypeName, lit *ast.CompositeLit) {
+		for f := range wi.fields {
+			if wi.owner[f] == tn {
+				s.flags[f] = aZero
+			}
+		}
+		if lit != nil {
+			for _, el := range lit.Elts {
+				if kv, ok := el.(*ast.KeyValueExpr); ok {
+					if id, ok := kv.Key.(*ast.Ident); ok && wi.fields[info.Uses[id]] {
+						if tv, ok := info.Types[kv.Value]; ok && tv.Value != nil {
+							if es := tv.Value.ExactString(); es != "0" && es != "false" {
+								s.flags[info.Uses[id]] = aPos
+							}
+						}
+					}
+				}
+			}
+		}
+	}
+	ast.Inspect(n, func(m ast.Node) bool {
+		switch x := m.(type) {
+		case *ast.FuncLit:
+			return false
+		case *ast.CompositeLit:
+			if tv, ok := info.Types[x]; ok {
+				if nt := namedOf(tv.Type); nt != nil && wi.types[nt.Obj()] {
+					reset(nt.Obj(), x)
+				}
+			}
+		case *ast.CallExpr:
+			if fn, ok := calleeObj(info, x).(*types.Func); ok && recvTypeNameOf(fn) == nil {
+				if tv, ok := info.Types[x]; ok {
+					if nt := namedOf(tv.Type); nt != nil && wi.types[nt.Obj()] {
+						reset(nt.Obj(), nil)
+					}
+				}
+			}
+		}
+		return true
+	})
 }
 
 func init() { register(ruleI1) }
